@@ -885,11 +885,20 @@ pub fn looks_builtin_or_grey(t: &str) -> bool {
     false
 }
 
+/// A statement the library would answer itself, behind a character that is neither part of it nor
+/// white space (a byte order mark, a zero-width space, a control character, ...): not that statement.
+pub fn gen_prefixed_builtin(g: &mut G<'_>) -> String {
+    let pre = *g.pick(&["\u{feff}", "\u{200b}", "\u{feff}\u{feff}", "\u{0}", "\u{1}", "\u{7f}", "é", "(", "\\", "_", "1", "\u{2060}", "\u{fffd}"]);
+    let stmt = *g.pick(&["SELECT @@max_allowed_packet", "select @@version_comment limit 1", "SELECT @@socket", "USE db", "use `db`;", "USE a", "SELECT 1"]);
+    format!("{}{}", pre, stmt)
+}
+
 pub fn gen_query_text(g: &mut G<'_>) -> String {
     // certainly not one of the built-in statements, in any spelling
-    let body = match g.weighted(&[5, 3, 1]) {
+    let body = match g.weighted(&[10, 6, 2, 1]) {
         0 => g.pick(&["SELECT 1", "INSERT INTO t VALUES (1)", "select * from foo", "SHOW TABLES", "x"]).to_string(),
         1 => gen_string(g, false),
+        3 => gen_prefixed_builtin(g),
         _ => g.pick(&["SELECT @x", "SELECT 1 -- @@", "SELEC @@", "USER()", "USEFUL", "use_db", "usedb", "SELECT @", "SELECTED @@", "(SELECT @@x)"]).to_string(),
     };
     if body.is_empty() || looks_builtin_or_grey(&body) {
